@@ -49,3 +49,22 @@ attach("C03", ["e2e_stream_c03"])
 attach("C12", ["e2e_stream_c12"])
 attach("C06", ["e2e_inject"])
 attach("C11", ["e2e_amp"])
+
+
+# C16 covers the reassembly buffer too: its component lives in the C01 family
+def attach_reasm_to_c16():
+    c01 = registry.PROPS.get("C01")
+    c16 = registry.PROPS.get("C16")
+    if not c01 or not c16:
+        return
+    for comp in c01["components"]:
+        if comp["name"] == "reasm":
+            c = dict(comp)
+            c["harness"] = ("h_core", "C01")
+            c["ocaml"] = "C01"
+            c16["components"] = list(c16["components"]) + [c]
+    c16["extra_props_files"] = list(c16.get("extra_props_files", [])) + ["props/C01.v"]
+    c16["gen"] = list(c16["gen"]) + [g for g in c01["gen"] if g not in c16["gen"]]
+
+
+attach_reasm_to_c16()
